@@ -134,7 +134,7 @@ class World:
             cls.__module__ = self.modname
             cls._tcv_key = key
             self.classes[key] = cls
-        for name in ('Auto1', 'Auto2', 'Auto3', 'AutoSet', 'AutoBoth', 'Plain1', 'Hand1', 'MemBox', 'MemBag'):
+        for name in ('Auto1', 'Auto2', 'Auto3', 'AutoSet', 'AutoBoth', 'AutoRaw', 'AutoVar', 'AutoTuple', 'Plain1', 'Hand1', 'MemBox', 'MemBag'):
             mod.__dict__[name].__module__ = self.modname
         self.module = mod
         public = [n for n in mod.__dict__ if not n.startswith('_')]
@@ -598,6 +598,14 @@ class World:
                 p = self._context_arg(d, u['ctx'], vid, counter)
                 uses.append(f'{p} as {u["as"]}' if u.get('as') else str(p))
             data['uses'] = uses
+        if k in ('dict', 'object') and d.get('_shared_ctx_objects'):
+            # caller-owned context objects that live as long as the world: every construction whose context names the
+            # same dict / Context object gets the SAME Python object (as a program that keeps its contexts in variables)
+            memo = self.__dict__.setdefault('_ctx_memo', {})
+            mk = json.dumps(ctx, sort_keys=True, default=str)
+            if mk not in memo:
+                memo[mk] = data if k == 'dict' else Context(data=data, name=ctx.get('name', 'ctxobj'))
+            return memo[mk]
         if k == 'dict':
             return data
         if k in ('json', 'yaml'):
@@ -840,6 +848,41 @@ class AutoBoth(_h.AutoParameterObject):
 
     def _tcv_state(self):
         return {'cols': list(self._cols)}
+
+
+class AutoRaw(_h.AutoParameterObject):
+    """keeps the argument as written in `_path` and exposes a processed public `path` (what the substituted text says, upper-cased):
+    the representation uses the stored raw argument, so it does not depend on the values of global variables"""
+    def __init__(self, path):
+        self._path = path
+
+    @property
+    def path(self):
+        return str(self._path).upper()
+
+    def _tcv_state(self):
+        return {'path': self._path}
+
+
+class AutoTuple(_h.AutoParameterObject):
+    """an argument whose default is a tuple (a value no JSON / YAML config can spell): it is rendered as a tuple"""
+    def __init__(self, a, size=(224, 224), pair=((1, 'x'), [2, (3,)])):
+        self.a = a
+        self.size = size
+        self.pair = pair
+
+    def _tcv_state(self):
+        return {'a': self.a, 'size': repr(self.size), 'pair': repr(self.pair)}
+
+
+class AutoVar(_h.AutoParameterObject):
+    """variadic keyword arguments, stored (as the library requires) under the parameter's name"""
+    def __init__(self, a, **options):
+        self.a = a
+        self.options = options
+
+    def _tcv_state(self):
+        return {'a': self.a, 'options': dict(self.options)}
 
 
 class Plain1:
